@@ -140,11 +140,42 @@ func (cr *crashRun) checkCut(k, torn int, st *Stats) (excluded bool) {
 	sod.LowercaseNames = e.cfg.Lower
 	db := sod.Open(dst)
 	defer db.Close()
-	first := db.Create(&Doc{}, e.cfg.Schema())
-	if first != nil && !sod.IsIndexCorrupted(first) {
-		e.failf("%s: reopening (Create) fails with %v, which is neither success nor index corruption", where, first)
-	}
 	w := WalkDir(strings.Replace(e.collDir(), e.root, dst, 1))
+	// the first call that touches the collection is the one that gets the corruption report:
+	// mostly Create, but applications also start with a read
+	var first error
+	touch := "Create"
+	if w.Schema != nil && w.SchemaErr == "" {
+		switch (k*7 + torn + 12) % 5 {
+		case 2:
+			touch = "Count"
+			_, first = db.Count(&Doc{})
+		case 3:
+			for _, id := range e.allIDs {
+				if _, ok := w.Objects[id]; ok {
+					touch = "GetByUUID"
+					_, first = db.GetByUUID(&Doc{}, id)
+					break
+				}
+			}
+		case 4:
+			touch = "Search"
+			ip := e.cfg.IndexedPaths()[0]
+			first = db.Search(&Doc{}, ip.Path, "!=", valOfNorm(norm{cls: ip.Class}, ip).Iface(ip)).Err()
+		}
+	}
+	if touch != "Create" {
+		if first != nil && !sod.IsIndexCorrupted(first) {
+			e.failf("%s: the first call after reopening (%s) fails with %v, which is neither success nor index corruption", where, touch, first)
+		}
+		st.Add("cuts_first_touched_by_a_read", 1)
+	}
+	if err := db.Create(&Doc{}, e.cfg.Schema()); err != nil {
+		if !sod.IsIndexCorrupted(err) {
+			e.failf("%s: reopening (Create) fails with %v, which is neither success nor index corruption", where, err)
+		}
+		first = err
+	}
 	fileModel := NewModel(e.cfg)
 	var order []string
 	for _, id := range e.allIDs {
@@ -338,7 +369,7 @@ func c05Profile() *Profile {
 		W:          map[string]int{"insert": 8, "update": 6, "delete": 3, "many": 3, "searchDelete": 1, "deleteAll": 1, "resurrect": 1, "tick": 3},
 		AllowCache: true, AllowCompress: true, AllowAsync: true, AllowLower: true,
 		MinIndexed: 1, MaxIndexed: 3, MaxUnique: 1, CasePaths: 0,
-		TinyBias: 60, BigBias: 10, HookBias: 0, RichShape: 5, MaxLeaves: 1, NoCopyItems: true,
+		TinyBias: 60, BigBias: 10, HookBias: 12, RichShape: 5, MaxLeaves: 1, NoCopyItems: true,
 	}
 }
 
@@ -347,7 +378,7 @@ func TestC05(t *testing.T) {
 		t.Skip("needs the instrumented build")
 	}
 	st := statsFor("C05")
-	st.Rule = "a generated history (inserts, key-moving updates, deletes, batches, search-delete, DeleteAll, virtual-clock ticks that let the async flusher run, final Close) runs on a copy of the working tree whose os/ioutil calls are recorded per database root; the recorded log of file-system mutations (mkdir, open/create/truncate, every Write with its bytes, close, remove, rename) is cut at EVERY mutation boundary (exhaustive per history) and every Write is additionally torn at byte 1, the middle and the last byte; each prefix is materialised into a fresh directory and opened the way a restarting application does (Open, Create, use). Oracle per crash state: reopening reports nil or ErrIndexCorrupted, nothing else; every object file decodes (independent walker); if corruption is reported Repair and then Control succeed; then every read path and a search sweep over the indexed paths equal predicates on the decoded files; when the crash left temporary files behind every object is then written again with a short value, read back and decoded from disk (leftovers must stay harmless); in synchronous mode every object on disk equals its value before or after the interrupted call (equal to the acknowledged state when the cut is at a call boundary). Evaluations = crash states. Non-trivial: the cut lies strictly inside an API call. Distinct by (program hash, cut, torn offset)."
+	st.Rule = "a generated history (inserts, key-moving updates, deletes, batches, search-delete, DeleteAll, virtual-clock ticks that let the async flusher run, final Close) runs on a copy of the working tree whose os/ioutil calls are recorded per database root; the recorded log of file-system mutations (mkdir, open/create/truncate, every Write with its bytes, close, remove, rename) is cut at EVERY mutation boundary (exhaustive per history) and every Write is additionally torn at byte 1, the middle and the last byte; each prefix is materialised into a fresh directory and opened the way a restarting application does (Open, then a first call that is Create in 3 of 5 states and Count, GetByUUID or a search otherwise, then Create, then use); objects may carry value-changing Transform hooks (Repair must index what the files hold). Oracle per crash state: reopening reports nil or ErrIndexCorrupted, nothing else; every object file decodes (independent walker); if corruption is reported Repair and then Control succeed; then every read path and a search sweep over the indexed paths equal predicates on the decoded files; when the crash left temporary files behind every object is then written again with a short value, read back and decoded from disk (leftovers must stay harmless); in synchronous mode every object on disk equals its value before or after the interrupted call (equal to the acknowledged state when the cut is at a call boundary). Evaluations = crash states. Non-trivial: the cut lies strictly inside an API call. Distinct by (program hash, cut, torn offset)."
 	st.Assumptions = append(baseAssumptions(), "process-crash model: completed system calls persist in order; torn writes only inside one Write; no reordering, no loss of directory entries (the code never syncs)", "the restarting application calls Create with the same schema before using the collection")
 	prof := c05Profile()
 	rapid.Check(t, func(rt *rapid.T) {
